@@ -44,7 +44,7 @@ def describe(tier):
         "aggregate in {count, valid_count, sum, mean} x ignore_missing x weight spec (none, scalar 2/0/NaN, arrays over {positive,0,missing}^N, (values,validity) "
         "forms with NaN/1e300 hidden) x fact spec (1-D or 2/3 columns, NaN-marked / (float,validity) hidden NaN or 1e300 / (int64,validity), missing patterns). "
         "All three (index cube, array cube, per-cell group-by in plain Python) must agree: missing cells exactly, values within 1e-9 x grand total; zero-dim "
-        "compared as a single cell. evaluations = library cube evaluations. Non-trivial: a call with weights or a missing fact value on a cube with >=1 dimension "
+        "compared as a single cell. Plus WIDE cubes (extents such as (4,100), (3,86), (257,), (3,40000), (65537,), (2,3,50)) whose cell counts and strides cross the 255/256 and 65535/65536 coordinate-width boundaries, with every data vector over boundary categories for N<=3, sparse comparison. evaluations = library cube evaluations. Non-trivial: a call with weights or a missing fact value on a cube with >=1 dimension "
         "where some dimension's common value has rows and another value is present. Distinct = distinct (data, commons, call).",
         "bounds": {"sets": SETS[tier]},
         "exhaustive": True,
@@ -83,8 +83,22 @@ def calls(N, cfg):
                     yield (agg, ignore, ws, fs)
 
 
+# wide cubes: total cell counts / strides crossing the 255/256 and 65535/65536 coordinate-width boundaries of the array cube
+WIDE = [
+    ((4, 100), [[0, 3], [0, 99]]),
+    ((3, 86), [[0, 2], [0, 85]]),
+    ((2, 128), [[0, 1], [0, 127]]),
+    ((257,), [[0, 255, 256]]),
+    ((256,), [[0, 254, 255]]),
+    ((3, 40000), [[0, 2], [0, 39999]]),
+    ((2, 32768), [[0, 1], [0, 32767]]),
+    ((65537,), [[0, 65535, 65536]]),
+    ((2, 3, 50), [[0, 1], [0, 2], [0, 49]]),
+]
+
+
 def blocks(tier):
-    out = []
+    out = [("wide", {"tier": tier, "wi": i}) for i in range(len(WIDE))]
     for si, cfg in enumerate(SETS[tier]):
         for N in cfg["Ns"]:
             if cfg["D"] == 0:
@@ -196,7 +210,71 @@ def check_zero(N, cfg, acc, only_call=None):
         acc.case(("zero", N, agg, ignore, ws, fs), nontrivial=False, outcome=("zero", agg), sample=case)
 
 
+def check_wide(shape, vals, datas, acc):
+    """Sparse comparison on a wide cube: every populated cell against the group-by, every other cell missing."""
+    from catii.ccubes import ccube
+    from catii.xcubes import xcube
+
+    D = len(shape)
+    N = len(datas[0])
+    denses = [numpy.array(t, dtype=numpy.int64) for t in datas]
+    cells = M.cell_rows(denses, shape, N)
+    xin = [Q.unsigned_view(d) for d in denses]
+    total = 1
+    for e in shape:
+        total *= e
+    wsyms = tuple("PM"[r % 2] for r in range(N))
+    menu = [("count", False, ("none",), None), ("count", True, ("array", wsyms, "nan"), None), ("sum", True, ("scalar", 2.0), (0, "pow2", tuple([False] * N), "nan")),
+            ("mean", False, ("none",), (0, "pow2", tuple(r == 0 for r in range(N)), "pair-huge"))]
+    for call in menu:
+        agg, ignore, ws, fs = call
+        f_arg, x, valid, K, w_arg, w, wok = realise(N, ws, fs)
+        exp = {}
+        for coords, rows in cells.items():
+            ev, em = Q.oracle(agg, {(): rows}, (), N, K, x, valid, w, wok, ignore)
+            exp[coords] = (float(ev), bool(em))
+        nvalid = sum(1 for v, m in exp.values() if not m)
+        base = {"wide": list(shape), "data": [list(t) for t in datas], "agg": agg, "ignore": ignore, "weights": ws, "fact": fs}
+        variants = [
+            ("ccube", "explicit", lambda: ccube([M.build_index(d, int(t[0])) for d, t in zip(denses, datas)], interacting_shape=shape)),
+            ("ccube", "common-absent", lambda: ccube([M.build_index(d, 1) for d in denses], interacting_shape=shape)),
+            ("xcube", "int64-explicit", lambda: xcube(denses, interacting_shape=shape)),
+            ("xcube", "unsigned-explicit", lambda: xcube(xin, interacting_shape=shape)),
+        ]
+        for kind, variant, mk in variants:
+            try:
+                f2, _, _, _, w2, _, _ = realise(N, ws, fs)
+                v, m = Q.normalise(Q.call_cube(mk(), agg, f2, w2, ignore, Q.PAIR), Q.PAIR)
+            except Exception as e:  # noqa
+                acc.violation("%s:%s:raised" % (kind, agg), dict(base, variant=variant), repr(e))
+                continue
+            acc.count(kind + "_evals")
+            if tuple(v.shape) != tuple(shape):
+                acc.violation("%s:%s:differs" % (kind, agg), dict(base, variant=variant), "shape %r expected %r" % (v.shape, shape))
+                continue
+            bad = None
+            if int((~m).sum()) != nvalid:
+                where = [tuple(int(i) for i in c) for c in numpy.argwhere(~m)[:6]]
+                bad = "%d non-missing cells, expected %d (non-missing at %r, expected at %r)" % (int((~m).sum()), nvalid, where, sorted(c for c, (vv, mm) in exp.items() if not mm))
+            else:
+                for coords, (ev, em) in exp.items():
+                    if bool(m[coords]) != em or (not em and abs(float(v[coords]) - ev) > 1e-9 * max(1.0, abs(ev))):
+                        bad = "cell %r: value %r missing %r, expected %r missing %r" % (coords, float(v[coords]), bool(m[coords]), ev, em)
+                        break
+            if bad:
+                acc.violation("%s:%s:differs" % (kind, agg), dict(base, variant=variant), bad)
+        acc.case(("wide", shape, tuple(datas), call), nontrivial=len(cells) > 1, outcome=("wide", agg), sample=lambda: base)
+
+
 def run_block(family, p, acc):
+    if family == "wide":
+        shape, vals = WIDE[p["wi"]]
+        for N in (1, 2, 3):
+            for datas in itertools.product(*[list(itertools.product(v, repeat=N)) for v in vals]):
+                if N == 3 and (len(shape) > 1 or p["tier"] == "quick") and len(set(datas[0])) < 2:
+                    continue
+                check_wide(tuple(shape), vals, list(datas), acc)
+        return
     cfg = SETS[p["tier"]][p["si"]]
     N = p["N"]
     if family == "zero":
@@ -223,7 +301,9 @@ def replay(case, site=None):
     acc = Acc(ID, [], stop_at_first=False)
     call = (case["agg"], case["ignore"], _tupleize(case["weights"]), _tupleize(case["fact"]) if case["fact"] is not None else None)
     cfg = dict(wl=0, Ks=[0], fl=1, forms=["nan"], vals=["pow2"], wforms=True)
-    if not case["data"]:
+    if case.get("wide"):
+        check_wide(tuple(case["wide"]), None, [tuple(t) for t in case["data"]], acc)
+    elif not case["data"]:
         check_zero(case["N"], cfg, acc, only_call=call)
     else:
         datas = [tuple(t) for t in case["data"]]
